@@ -176,4 +176,12 @@ func verifC20MsgReaders(d DHCPv6) {
 	}
 	verifAssert(verifSame(d.ToBytes(), e0), "readers-leave-encoding-unchanged")
 	keep.check()
+	// the package's read-only helpers that take a message
+	_, _ = ExtractMAC(d)
+	_, _ = GetTransactionID(d)
+	_, _ = DecapsulateRelay(d)
+	_, _ = DecapsulateRelayIndex(d, -1)
+	_, _ = d.GetInnerMessage()
+	verifAssert(verifSame(d.ToBytes(), e0), "helpers-leave-encoding-unchanged")
+	keep.check()
 }
